@@ -224,7 +224,7 @@ func rulesC18(c *Ctx) {
 			c.Check(ok, "C18.identity", fname(fn)+":signature-covers-own-header+report", c.P.InstrPos(call), "the quote's own header and report body are what is verified", "signature verification is not applied to the quote's own header/report body/time/collateral")
 		}
 		okId := false
-		for _, b := range fn.Blocks {
+		for _, b := range blocksIP(fn) {
 			for _, in := range b.Instrs {
 				st, ok := in.(*ssa.Store)
 				if !ok {
@@ -238,7 +238,7 @@ func rulesC18(c *Ctx) {
 			}
 		}
 		okRd := false
-		for _, b := range fn.Blocks {
+		for _, b := range blocksIP(fn) {
 			for _, in := range b.Instrs {
 				st, ok := in.(*ssa.Store)
 				if !ok {
@@ -278,7 +278,7 @@ func rulesC18(c *Ctx) {
 			continue
 		}
 		roots, tm := false, false
-		for _, b := range fn.Blocks {
+		for _, b := range blocksIP(fn) {
 			for _, in := range b.Instrs {
 				st, ok := in.(*ssa.Store)
 				if !ok {
